@@ -5,7 +5,7 @@ import "time"
 func init() {
 	registry = append(registry, property{id: "C17", parts: []part{
 		{name: "cli", pkg: "./c17", run: "^TestGooseCommand$",
-			shards: [2]int{16, 16}, checks: [2]int{64, 600}, timeout: [2]time.Duration{15 * min, 30 * min},
+			shards: [2]int{16, 16}, checks: [2]int{64, 600}, timeout: [2]time.Duration{15 * min, 60 * min},
 			bins: []string{"goose"}},
 	}})
 }
